@@ -1,6 +1,6 @@
 (* C08 — the Hilbert index is a bijective, continuous curve at every accepted
    order.  Only the property theorems, each closed by [exact] of a lemma of
-   Proofs/Hilbert*.v, with [Print Assumptions] beneath.  The tables, masks,
+   Proofs/Hilbert*.v, with [Print Assumptions] at the end of the file (per group).  The tables, masks,
    limits and code-shape flags are the ones the translator read from
    hilbert_curve.rs (Gen/HilbertTables.v). *)
 From Coupe Require Import Lib.Prelude Lib.SFloat Model.Hilbert Gen.HilbertTables
@@ -12,8 +12,17 @@ Open Scope N_scope.
 (* ---- the source is in the shape the theorems are about *)
 Theorem C08_source_shape :
   encode_2d_final_fixed = true /\ seg_factor_capped = true /\ max_order_2d = 32 /\ max_order_3d = 21
-  /\ lut2_order = 6%nat /\ lut2_chunk_bits = 12 /\ lut2_len = 16384.
+  /\ lut2_order = 6%nat /\ lut2_chunk_bits = 12 /\ lut2_len = 16384 /\ lut2_built = 16384
+  /\ max_order_2d = spec_max_order_2d /\ max_order_3d = spec_max_order_3d.
 Proof. repeat split; reflexivity. Qed.
+
+(* the public entry points refuse exactly the orders above the documented maxima *)
+Theorem C08_order_guard : forall order,
+  (order_guard max_order_2d order = Ok tt <-> order <= 32) /\
+  (order_guard max_order_3d order = Ok tt <-> order <= 21) /\
+  (32 < order -> order_guard max_order_2d order = Err (InvalidOrder 32 order)) /\
+  (21 < order -> order_guard max_order_3d order = Err (InvalidOrder 21 order)).
+Proof. exact order_guard_spec. Qed.
 
 (* ---- the finite certificate holds of the tables in the current source
    (rows are permutations, consecutive quadrants adjacent, corners glue) *)
@@ -34,20 +43,16 @@ Proof. exact dec2_enc2. Qed.
 Theorem C08_hilbert2_enc_dec : forall n s h, s < 4 -> h < 4 ^ N.of_nat n ->
   enc2 n s (fst (dec2 n s h)) (snd (dec2 n s h)) = h.
 Proof. exact enc2_dec2. Qed.
-Print Assumptions C08_hilbert2_dec_enc.
-Print Assumptions C08_hilbert2_enc_dec.
 
 (* cells with consecutive indices share a face *)
 Theorem C08_hilbert2_continuous : forall n s h, s < 4 -> h + 1 < 4 ^ N.of_nat n ->
   adjacent2 (dec2 n s h) (dec2 n s (h + 1)).
 Proof. exact dec2_continuous. Qed.
-Print Assumptions C08_hilbert2_continuous.
 
 (* dropping the 2 low bits of the index gives the parent cell's index *)
 Theorem C08_hilbert2_parent : forall n s x y, s < 4 ->
   enc2 (S n) s x y / 4 = enc2 n s (x / 2) (y / 2).
 Proof. exact enc2_parent. Qed.
-Print Assumptions C08_hilbert2_parent.
 
 (* ---- 3-D: the same for the 96-entry table (12 states x 8 octants) *)
 Theorem C08_hilbert3_enc_range : forall n s x y z, s < 12 -> enc3 n s x y z < 8 ^ N.of_nat n.
@@ -68,10 +73,6 @@ Proof. exact dec3_continuous. Qed.
 Theorem C08_hilbert3_parent : forall n s x y z, s < 12 ->
   enc3 (S n) s x y z / 8 = enc3 n s (x / 2) (y / 2) (z / 2).
 Proof. exact enc3_parent. Qed.
-Print Assumptions C08_hilbert3_dec_enc.
-Print Assumptions C08_hilbert3_enc_dec.
-Print Assumptions C08_hilbert3_continuous.
-Print Assumptions C08_hilbert3_parent.
 
 (* ---- the property text as one record, for an arbitrary indexing g of the
    order-n grid: in range, injective, onto [0, 2^(Dn)), continuous, parent
@@ -97,10 +98,6 @@ Theorem C08_check_table2_sound : forall n g gp, curve_ok2 n g gp -> check_table2
 Proof. exact check_table2_sound. Qed.
 Theorem C08_check_table3_sound : forall n g gp, curve_ok3 n g gp -> check_table3 n g gp = true.
 Proof. exact check_table3_sound. Qed.
-Print Assumptions C08_hilbert2_curve_ok.
-Print Assumptions C08_hilbert3_curve_ok.
-Print Assumptions C08_check_cell2_sound.
-Print Assumptions C08_check_cell3_sound.
 
 (* ---- pdep: the 64-iteration fallback loop deposits the low bits of src at
    the set positions of mask; bit k = mask_k && src_(number of mask bits below k) *)
@@ -117,9 +114,6 @@ Theorem C08_interleave3 : forall (n : nat) x y z, (n <= 21)%nat ->
   x < 2 ^ N.of_nat n -> y < 2 ^ N.of_nat n -> z < 2 ^ N.of_nat n ->
   interleave3 x y z = il3 n x y z.
 Proof. exact interleave3_spec. Qed.
-Print Assumptions C08_pdep_spec.
-Print Assumptions C08_interleave2.
-Print Assumptions C08_interleave3.
 
 (* ---- the code: encode_2d_slow, the LUT-driven encode_2d (12-bit chunks,
    zero-padded last chunk, u64 wraps) and encode_3d compute the curve index
@@ -138,10 +132,6 @@ Theorem C08_encode_3d : forall (n : nat) x y z, (n <= 21)%nat ->
   x < 2 ^ N.of_nat n -> y < 2 ^ N.of_nat n -> z < 2 ^ N.of_nat n ->
   encode_3d x y z (N.of_nat n) = Ok (enc3 n 0 x y z).
 Proof. exact encode_3d_spec. Qed.
-Print Assumptions C08_encode_2d_slow.
-Print Assumptions C08_encode_2d.
-Print Assumptions C08_encode_2d_eq_slow.
-Print Assumptions C08_encode_3d.
 
 (* the pinned final expression of encode_2d (before commit 72e32af) is refuted:
    at order 32 it is not the curve and not injective *)
@@ -188,10 +178,6 @@ Theorem C08_check_seg_ok : forall order cells,
   check_seg order cells = true <->
   Sorted.Sorted N.le cells /\ Forall (fun c => c <= 2 ^ order - 1) cells.
 Proof. exact check_seg_ok. Qed.
-Print Assumptions C08_bits_are_valid_floats.
-Print Assumptions C08_seg_terminates.
-Print Assumptions C08_seg_monotone.
-Print Assumptions C08_seg_range.
 
 (* the pinned factor `n / width` (before commit 5f6dac8) never leaves the loop
    on a subnormal-width interval; the repaired one returns *)
@@ -218,3 +204,50 @@ Example C08_nonvacuous_seg :   (* [0, 8] at order 3: the values 0..8 *)
   segment_to_segment seg_fuel (f64_of_Z 0) (f64_of_Z 8) 3 (map f64_of_Z [0;1;2;3;4;5;6;7;8]%Z)
   = Ok [0; 0; 1; 2; 3; 4; 5; 6; 7].
 Proof. vm_compute. reflexivity. Qed.
+
+(* ---- assumptions, printed once per group (one traversal each instead of one per theorem):
+   every theorem of the first group is closed under the global context; the
+   second group (Flocq) depends on the four real-number axioms of the standard library *)
+Definition C08_axiom_free_theorems :=
+  (C08_source_shape,
+   C08_order_guard,
+   C08_tables_certificate_2d,
+   C08_tables_certificate_3d,
+   C08_hilbert2_enc_range,
+   C08_hilbert2_dec_range,
+   C08_hilbert2_dec_enc,
+   C08_hilbert2_enc_dec,
+   C08_hilbert2_continuous,
+   C08_hilbert2_parent,
+   C08_hilbert3_enc_range,
+   C08_hilbert3_dec_range,
+   C08_hilbert3_dec_enc,
+   C08_hilbert3_enc_dec,
+   C08_hilbert3_continuous,
+   C08_hilbert3_parent,
+   C08_hilbert2_curve_ok,
+   C08_hilbert3_curve_ok,
+   C08_check_cell2_sound,
+   C08_check_cell3_sound,
+   C08_check_table2_sound,
+   C08_check_table3_sound,
+   C08_pdep_eq_ref,
+   C08_pdep_spec,
+   C08_interleave2,
+   C08_interleave3,
+   C08_encode_2d_slow,
+   C08_encode_2d,
+   C08_encode_2d_eq_slow,
+   C08_encode_3d,
+   C08_encode_2d_pinned_refuted,
+   C08_check_seg_ok,
+   C08_seg_pinned_hangs,
+   C08_seg_fixed_returns).
+Print Assumptions C08_axiom_free_theorems.
+Definition C08_float_theorems :=
+  (C08_bits_are_valid_floats,
+   C08_seg_monotone,
+   C08_seg_range,
+   C08_seg_factor_good,
+   C08_seg_terminates).
+Print Assumptions C08_float_theorems.
